@@ -11,6 +11,8 @@ OBLIGATIONS = ([K.BED_SECTION_W] + K.WRITER_LAYOUT + K.SPANS + [K.BED_FLUSH, K.T
                K.BUFSIZE, K.IDMAP, K.INDEX_PAIRS] + K.READER_COMMON + K.CIR_READER + [K.BED_BLOCK_R, K.ITEMCOUNT_R, K.BED_KEEP, K.QUERY_ARGS, K.OVERLAPS, K.BED_GUARDS] + [K.CONTRADICTION])
 OBLIGATIONS = OBLIGATIONS + [K.BLOCK_DATA, K.SEARCH_ORDER, K.INTERVAL_SIBS]
 OBLIGATIONS = OBLIGATIONS + [K.EVERY_VALUE]
+# the item count of the header is the sum of the per-chromosome counts: the merge of chromosome summaries must add them unconditionally
+OBLIGATIONS = OBLIGATIONS + [K.MERGE]
 OBLIGATIONS = OBLIGATIONS + [K.MAGICS]
 OBLIGATIONS = OBLIGATIONS + [K.ARG_NAMES]
 OBLIGATIONS = OBLIGATIONS + [K.STREAM_SIBS]
